@@ -159,6 +159,10 @@ def gen_synthetic(rng):
             elif m == 11 and kind in ("VEVENT", "VTODO"):
                 lines += ["BEGIN:VALARM", "ACTION:DISPLAY", "TRIGGER;RELATED=END:-PT15M", "REPEAT:2", "DURATION:PT5M",
                           "DESCRIPTION:alarm", "END:VALARM"]
+        if kind == "VEVENT" and rng.random() < 0.2:
+            # a VEVENT nested in an unknown component nested in the event (leniency is per component, at any depth)
+            lines += ["BEGIN:X-WRAP", "X-NOTE:wrapped", "BEGIN:VEVENT", f"UID:inner-{n}@example.com", "SUMMARY:inner",
+                      "DTSTART:20200102T000000Z", "END:VEVENT", "END:X-WRAP"]
         if rng.random() < 0.25:
             depth = rng.choice([1, 2, 3, 8, 30, 64])
             for k in range(depth):
@@ -532,20 +536,22 @@ def _isolate(res, stepno, a):
     g = random.Random(a["seed"])
     text = a["doc"].encode("latin-1").decode("utf-8", "replace")
     lines = _logical_lines(text)
-    stack = []      # entries: [name, [candidate line indices directly inside]]
+    stack = []      # entries: [name, direct property lines (kept for VEVENTs), lines inherited from closed descendants]
     cands = []
     for i, ln in enumerate(lines):
         u = ln.upper()
         if u.startswith("BEGIN:"):
-            stack.append([u[6:].strip(), []])
+            stack.append([u[6:], [], []])     # exactly as the parser sees it: 'VEVENT\r' is not a VEVENT
         elif u.startswith("END:"):
             if stack:
-                name, mine = stack.pop()
-                # only lines of VEVENTs that are closed, directly inside a VCALENDAR that is still open
-                if name == "VEVENT" and u[4:].strip() == "VEVENT" and len(stack) == 1 and stack[0][0] == "VCALENDAR":
-                    stack[0][1].extend(mine)
-                elif name == "VCALENDAR" and u[4:].strip() == "VCALENDAR" and not stack:
-                    cands.extend(mine)
+                name, mine, inherited = stack.pop()
+                if u[4:] != name:
+                    continue            # mismatched END: nothing below it is used
+                keep = (mine if name == "VEVENT" else []) + inherited
+                if stack:
+                    stack[-1][2].extend(keep)     # a VEVENT at any depth, all enclosing blocks properly closed
+                else:
+                    cands.extend(keep)
         elif stack and stack[-1][0] == "VEVENT":
             stack[-1][1].append(i)
     if not cands:
